@@ -14,7 +14,7 @@ def run(c):
                    "B(4A) = B(A)/4 bitwise": "O (bitwise comparison)"}
     c.assumptions = ["hooks H2/H3 report every backend primitive the cycle issues; smoothers that touch vector elements directly are "
                      "observed as one relax event (reads rhs and x, writes x)",
-                     "block value types are not yet swept by this check",
+                     "block value types: 2x2 static_matrix hierarchies for four typed coarsening x relaxation compositions",
                      "eigenvalues from Eigen (double); thresholds: linearity 1e-11, symmetry 1e-9 relative, rho < 1"]
     c.tlc_model("CycleModel", constants={"MaxLevels": 4 if th else 3})
     skip = c.tlc_model("CycleModel", constants={"MaxLevels": 2, "SkipClear": "TRUE"})
